@@ -48,6 +48,12 @@ for d in sorted(glob.glob(os.path.join(V, "seeded", "C*"))):
         m = re.search(r"SUITE_FAILURES_AFTER_RERUN=\[(.*?)\]", t); out["suite_failures_after_rerunning_alone"] = m.group(1).split() if m else "not re-run (older script)"
         m = re.search(r"DEMO_WITH_PATCH_RC=(\d+)", t); out["demo_exit_with_patch"] = int(m.group(1)) if m else None
         m = re.search(r"DEMO_WITHOUT_PATCH_RC=(\d+)", t); out["demo_exit_without_patch"] = int(m.group(1)) if m else None
+        # some build.sh scripts print the demo's own exit code and return 0 themselves
+        for key, fn in (("demo_exit_with_patch", "demo_with_patch.txt"), ("demo_exit_without_patch", "demo_without_patch.txt")):
+            fp = os.path.join(d, fn)
+            if os.path.exists(fp):
+                mm = re.findall(r"demo exit code: (\d+)", open(fp, errors="replace").read())
+                if mm: out[key] = int(mm[-1])
         out["confirmed_by"] = "tools/confirm_seed.sh: full pinned suite with the patch in a scratch worktree (fails only the baseline's always-failing binaries), demo fails with / passes without the patch"
     else:
         out["confirmed_by"] = "pending (confirm_seed.sh not run yet)"
